@@ -470,10 +470,21 @@ def run_sends(wsdrv, conn, ops):
     messages with RSV1, ONE raw-deflate inflater for the whole connection (context takeover is on by default)."""
     import zlib
     out, wire = [], b""
+    pmce = conn.proto._perMessageCompress
+    produced = [0]
+    if pmce is not None:
+        # how many octets the real compressor produces per operation (also for a refused one)
+        for name in ("compress_message_data", "end_compress_message"):
+            def rec(*a, _orig=getattr(pmce, name)):
+                r = _orig(*a)
+                produced[0] += len(r)
+                return r
+            setattr(pmce, name, rec)
     for op in ops:
         payload = send_payload(op)
         binary = bool(op.get("binary", True))
         n0 = len(conn.log)
+        produced[0] = 0
         api = op["api"]
         if api == "message":
             kw = {}
@@ -502,7 +513,13 @@ def run_sends(wsdrv, conn, ops):
         raised = [e[1] for e in conn.log[n0:] if e[0] in ("raised", "escaped")]
         written = b"".join(bytes.fromhex(e[1]) for e in conn.log[n0:] if e[0] == "write")
         wire += written
-        out.append({"raised": raised[0] if raised else None, "wrote": len(written), "payload": payload.hex()})
+        try:
+            wf = [f for f in wsdrv.parse_frames(written)[0] if f["opcode"] < 8]
+        except ValueError:
+            wf = []
+        out.append({"raised": raised[0] if raised else None, "wrote": len(written), "payload": payload.hex(),
+                    "comp_len": produced[0], "rsv1": bool(wf and wf[0]["rsv"] & 4), "wire_len": sum(f["length"] for f in wf),
+                    "compressor_none": pmce is None or getattr(pmce, "_compressor", None) is None})
     peer, err = [], None
     try:
         frames, rest = wsdrv.parse_frames(wire)
